@@ -61,6 +61,14 @@ def one_program(col: Collector, rng, index: int):
     from vlib import fluentshadow as fs
     floats = rng.random() < 0.15
     src, ops = fs.gen_program(rng, depth=3, floats=floats)
+    if not floats and rng.random() < 0.08:
+        # sources of a narrow element type (bool masks, 8/16-bit integers) under one reduction: NumPy accumulates sum / prod / mean of
+        # the stacked sources in a wide type, and so must the program, batched or not
+        src = dict(src, dtype=rng.choice(["bool", "int8", "uint8", "int16"]))
+        dim = rng.choice(src["dims"])
+        n_ = len(src["coords"][dim])
+        ops = [{"op": "reduce", "name": rng.choice(["sum", "sum", "prod", "mean", "max", "min"]), "dim": dim, "batch": rng.choice([0, 0, 2, n_ - 1, n_]), "keep": rng.random() < 0.3}]
+        col.count("narrow_dtype_programs")
     if not ops:
         col.case(shape=("empty",), nontrivial=False)
         return
